@@ -416,6 +416,9 @@ def run(prog, chk):
     # the set of clients whose onClosed is pending is a HashSet (anchored here): a node dropped from its bucket chain while still on
     # the list makes remove() a silent no-op - the removed client is still called back - or keeps a later client from being queued
     from .. import containers as _C
+    # the timer queue is a MultiMap (anchored here): a child link without the matching parent pointer makes a later removal cut a
+    # subtree out of the search tree - timers stay on the list but re-queued ones are positioned wrongly: due timers starve
+    _C.parent_pairing(prog, chk, "C14.T17", ("MultiMap",))
     _C.link_idiom(prog, chk, "C14.T15", ("HashSet",))
     _C.unlink_idiom(prog, chk, "C14.T16", ("HashSet",))
     from . import c13 as _c13
